@@ -180,12 +180,23 @@ func check(c Case) error {
 	if got != want {
 		return vk.Errf("location %s assembled as a structure on parent %q: feature sequence %q, INSDC reading %q", text, parent, got, want)
 	}
-	// (c) written back to text: valid INSDC syntax, same bases, same partial ends
+	// (c) written back to text. Writing must leave the structure it was given as it is: the same stranded spans and
+	// markers, the same feature sequence, the same text when written again.
+	written := genbank.BuildLocationString(st)
+	if !insdc.SameSegments(insdc.StructureSegments(st), n.Segments()) {
+		return vk.Errf("BuildLocationString of %s changed the location it was given: it now reads %+v, before %+v", text, insdc.StructureSegments(st), n.Segments())
+	}
+	if again, err := featureSequence(parent, st); err != nil || again != want {
+		return vk.Errf("after BuildLocationString of %s the same structure gives the feature sequence %q (err %v), before %q", text, again, err, want)
+	}
+	if second := genbank.BuildLocationString(st); second != written {
+		return vk.Errf("BuildLocationString of %s gives %q the first time and %q the second", text, written, second)
+	}
+	// valid INSDC syntax, same bases, same partial ends
 	if n.HasP3() && !c.NoExclusion && vk.KnownActive(knownWriter) {
 		vk.CountExcluded("writer clause skipped: location has a 3' partial leaf (K-C02-1)")
 		return nil
 	}
-	written := genbank.BuildLocationString(st)
 	back, perr := insdc.ParseStrict(written)
 	if perr != nil {
 		return vk.Errf("BuildLocationString of %s gives %q, which is not valid INSDC location syntax: %v", text, written, perr)
